@@ -118,7 +118,7 @@ type cdcGenState struct {
 	uUsed  []string
 }
 
-func newCdcGenState(r *core.Rand) *cdcGenState {
+func cdcNewGenState(r *core.Rand) *cdcGenState {
 	return &cdcGenState{r: r, ids: map[string][]int64{}, nextID: map[string]int64{"items": 1, "logs": 1, "seqd": 1}}
 }
 
@@ -381,7 +381,7 @@ func (g *cdcGenState) request() (stmts []cdcStmt, tx bool) {
 func cdcLoadImage(dir string, seed uint64) ([]byte, error) {
 	p := filepath.Join(dir, fmt.Sprintf("load-%d.sqlite", seed))
 	os.Remove(p)
-	db, err := sql.Open(shadowDriverName(), "file:"+p)
+	db, err := sql.Open(cdcShadowDriverName(), "file:"+p)
 	if err != nil {
 		return nil, err
 	}
@@ -412,9 +412,9 @@ func cdcLoadImage(dir string, seed uint64) ([]byte, error) {
 
 // ---------------------------------------------------------------- expected events
 
-// xEvent is one row change in canonical form. Before/After are the JSON text of
+// cdcXEvent is one row change in canonical form. Before/After are the JSON text of
 // the column-name -> value object ("" = absent).
-type xEvent struct {
+type cdcXEvent struct {
 	Op     string
 	Table  string
 	Old    int64
@@ -424,10 +424,10 @@ type xEvent struct {
 	Err    string
 }
 
-func (e xEvent) ident() string {
+func (e cdcXEvent) ident() string {
 	return fmt.Sprintf("%s %s old=%d new=%d", e.Op, e.Table, e.Old, e.New)
 }
-func (e xEvent) String() string {
+func (e cdcXEvent) String() string {
 	s := e.ident()
 	if e.Before != "" {
 		s += " before=" + e.Before
@@ -441,7 +441,7 @@ func (e xEvent) String() string {
 	return s
 }
 
-func identsOf(evs []xEvent) string {
+func cdcIdentsOf(evs []cdcXEvent) string {
 	var p []string
 	for _, e := range evs {
 		p = append(p, e.ident())
@@ -449,9 +449,9 @@ func identsOf(evs []xEvent) string {
 	return strings.Join(p, "; ")
 }
 
-// rowJSON renders a row image the way a JSON consumer sees it: object keyed by
+// cdcRowJSON renders a row image the way a JSON consumer sees it: object keyed by
 // column name; blobs base64, NULL null, numbers in Go's JSON number format.
-func rowJSON(cols []string, vals []any) string {
+func cdcRowJSON(cols []string, vals []any) string {
 	m := make(map[string]any, len(cols))
 	for i, c := range cols {
 		m[c] = vals[i]
@@ -460,7 +460,7 @@ func rowJSON(cols []string, vals []any) string {
 	if err != nil {
 		return "!marshal:" + err.Error()
 	}
-	// same canonical form as decodeEnvelope: decode with exact numbers, re-encode
+	// same canonical form as cdcDecodeEnvelope: decode with exact numbers, re-encode
 	d := json.NewDecoder(strings.NewReader(string(b)))
 	d.UseNumber()
 	var back map[string]any
@@ -473,10 +473,10 @@ func rowJSON(cols []string, vals []any) string {
 
 // ---------------------------------------------------------------- shadow database
 
-var shadowOnce sync.Once
+var cdcShadowOnce sync.Once
 
-func shadowDriverName() string {
-	shadowOnce.Do(func() { sql.Register("verif-cdc-shadow", &sqlite3.SQLiteDriver{}) })
+func cdcShadowDriverName() string {
+	cdcShadowOnce.Do(func() { sql.Register("verif-cdc-shadow", &sqlite3.SQLiteDriver{}) })
 	return "verif-cdc-shadow"
 }
 
@@ -488,7 +488,7 @@ type cdcShadow struct {
 	cols    map[string][]string
 }
 
-func newCdcShadow(dir, filter string, idsOnly bool) (*cdcShadow, error) {
+func cdcNewShadow(dir, filter string, idsOnly bool) (*cdcShadow, error) {
 	sh := &cdcShadow{path: filepath.Join(dir, "shadow.sqlite"), idsOnly: idsOnly}
 	if filter != "" {
 		sh.filter = regexp.MustCompile(filter)
@@ -498,7 +498,7 @@ func newCdcShadow(dir, filter string, idsOnly bool) (*cdcShadow, error) {
 }
 
 func (sh *cdcShadow) open() error {
-	db, err := sql.Open(shadowDriverName(), "file:"+sh.path)
+	db, err := sql.Open(cdcShadowDriverName(), "file:"+sh.path)
 	if err != nil {
 		return err
 	}
@@ -526,12 +526,12 @@ func (sh *cdcShadow) Load(img []byte) error {
 	return sh.open()
 }
 
-type execer interface {
+type cdcExecer interface {
 	ExecContext(ctx context.Context, q string, args ...any) (sql.Result, error)
 	QueryContext(ctx context.Context, q string, args ...any) (*sql.Rows, error)
 }
 
-func (sh *cdcShadow) columns(x execer, t string) ([]string, error) {
+func (sh *cdcShadow) columns(x cdcExecer, t string) ([]string, error) {
 	if c, ok := sh.cols[t]; ok {
 		return c, nil
 	}
@@ -560,7 +560,7 @@ func (sh *cdcShadow) columns(x execer, t string) ([]string, error) {
 
 // dump reads every row of t: rowid -> typed values (int64, float64, string,
 // []byte, nil) decided by typeof(), independent of driver type guessing.
-func (sh *cdcShadow) dump(x execer, t string) (map[int64][]any, error) {
+func (sh *cdcShadow) dump(x cdcExecer, t string) (map[int64][]any, error) {
 	cols, err := sh.columns(x, t)
 	if err != nil {
 		return nil, err
@@ -588,7 +588,7 @@ func (sh *cdcShadow) dump(x execer, t string) (map[int64][]any, error) {
 		}
 		vals := make([]any, len(cols))
 		for i := range cols {
-			ty := fmt.Sprint(asString(raw[2*i]))
+			ty := fmt.Sprint(cdcAsString(raw[2*i]))
 			v := raw[2*i+1]
 			switch ty {
 			case "null":
@@ -598,7 +598,7 @@ func (sh *cdcShadow) dump(x execer, t string) (map[int64][]any, error) {
 				case int64:
 					vals[i] = n
 				default:
-					vals[i], _ = strconv.ParseInt(asString(v), 10, 64)
+					vals[i], _ = strconv.ParseInt(cdcAsString(v), 10, 64)
 				}
 			case "real":
 				switch n := v.(type) {
@@ -607,10 +607,10 @@ func (sh *cdcShadow) dump(x execer, t string) (map[int64][]any, error) {
 				case int64:
 					vals[i] = float64(n)
 				default:
-					vals[i], _ = strconv.ParseFloat(asString(v), 64)
+					vals[i], _ = strconv.ParseFloat(cdcAsString(v), 64)
 				}
 			case "text":
-				vals[i] = asString(v)
+				vals[i] = cdcAsString(v)
 			case "blob":
 				switch b := v.(type) {
 				case []byte:
@@ -627,7 +627,7 @@ func (sh *cdcShadow) dump(x execer, t string) (map[int64][]any, error) {
 	return out, rows.Err()
 }
 
-func asString(v any) string {
+func cdcAsString(v any) string {
 	switch s := v.(type) {
 	case string:
 		return s
@@ -638,14 +638,14 @@ func asString(v any) string {
 }
 
 var (
-	reInsert  = regexp.MustCompile(`^INSERT INTO (\w+)\(`)
-	reReplace = regexp.MustCompile(`^INSERT OR REPLACE INTO (\w+)\(id, [^)]*\) VALUES \((-?\d+),`)
-	reUpdate  = regexp.MustCompile(`^UPDATE (\w+) SET (.*?) WHERE (.*)$`)
-	reDelete  = regexp.MustCompile(`^DELETE FROM (\w+)(?: WHERE (.*))?$`)
-	reSetID   = regexp.MustCompile(`^id = (-?\d+)\b`)
+	cdcReInsert  = regexp.MustCompile(`^INSERT INTO (\w+)\(`)
+	cdcReReplace = regexp.MustCompile(`^INSERT OR REPLACE INTO (\w+)\(id, [^)]*\) VALUES \((-?\d+),`)
+	cdcReUpdate  = regexp.MustCompile(`^UPDATE (\w+) SET (.*?) WHERE (.*)$`)
+	cdcReDelete  = regexp.MustCompile(`^DELETE FROM (\w+)(?: WHERE (.*))?$`)
+	cdcReSetID   = regexp.MustCompile(`^id = (-?\d+)\b`)
 )
 
-func sortedKeys(m map[int64][]any) []int64 {
+func cdcSortedKeys(m map[int64][]any) []int64 {
 	ks := make([]int64, 0, len(m))
 	for k := range m {
 		ks = append(ks, k)
@@ -657,7 +657,7 @@ func sortedKeys(m map[int64][]any) []int64 {
 // applyStmt executes one statement on the shadow and returns the row changes
 // it made, in order. A failing statement changes nothing (SQLite rolls the
 // statement back) and yields no changes.
-func (sh *cdcShadow) applyStmt(x execer, st *proto.Statement) ([]xEvent, error) {
+func (sh *cdcShadow) applyStmt(x cdcExecer, st *proto.Statement) ([]cdcXEvent, error) {
 	q := st.Sql
 	var args []any
 	for _, p := range st.Parameters {
@@ -685,21 +685,21 @@ func (sh *cdcShadow) applyStmt(x execer, st *proto.Statement) ([]xEvent, error) 
 	var replaceID, setID int64
 	hasSetID := false
 	switch {
-	case reReplace.MatchString(q):
-		m := reReplace.FindStringSubmatch(q)
+	case cdcReReplace.MatchString(q):
+		m := cdcReReplace.FindStringSubmatch(q)
 		table, kind = m[1], "replace"
 		replaceID, _ = strconv.ParseInt(m[2], 10, 64)
-	case reInsert.MatchString(q):
-		table, kind = reInsert.FindStringSubmatch(q)[1], "insert"
-	case reUpdate.MatchString(q):
-		m := reUpdate.FindStringSubmatch(q)
+	case cdcReInsert.MatchString(q):
+		table, kind = cdcReInsert.FindStringSubmatch(q)[1], "insert"
+	case cdcReUpdate.MatchString(q):
+		m := cdcReUpdate.FindStringSubmatch(q)
 		table, kind, where = m[1], "update", m[3]
-		if s := reSetID.FindStringSubmatch(m[2]); s != nil {
+		if s := cdcReSetID.FindStringSubmatch(m[2]); s != nil {
 			hasSetID = true
 			setID, _ = strconv.ParseInt(s[1], 10, 64)
 		}
-	case reDelete.MatchString(q):
-		m := reDelete.FindStringSubmatch(q)
+	case cdcReDelete.MatchString(q):
+		m := cdcReDelete.FindStringSubmatch(q)
 		table, kind, where = m[1], "delete", m[2]
 	default:
 		// schema statements and anything else: executed, implies no row change
@@ -751,40 +751,40 @@ func (sh *cdcShadow) applyStmt(x execer, st *proto.Statement) ([]xEvent, error) 
 		if sh.idsOnly {
 			return ""
 		}
-		return rowJSON(cols, m[id])
+		return cdcRowJSON(cols, m[id])
 	}
-	var evs []xEvent
+	var evs []cdcXEvent
 	switch kind {
 	case "insert":
-		for _, id := range sortedKeys(after) {
+		for _, id := range cdcSortedKeys(after) {
 			if _, was := before[id]; !was {
-				evs = append(evs, xEvent{Op: "INSERT", Table: table, New: id, After: img(after, id)})
+				evs = append(evs, cdcXEvent{Op: "INSERT", Table: table, New: id, After: img(after, id)})
 			}
 		}
 	case "replace":
 		if _, was := before[replaceID]; was {
-			evs = append(evs, xEvent{Op: "DELETE", Table: table, Old: replaceID, Before: img(before, replaceID)})
+			evs = append(evs, cdcXEvent{Op: "DELETE", Table: table, Old: replaceID, Before: img(before, replaceID)})
 		}
-		evs = append(evs, xEvent{Op: "INSERT", Table: table, New: replaceID, After: img(after, replaceID)})
+		evs = append(evs, cdcXEvent{Op: "INSERT", Table: table, New: replaceID, After: img(after, replaceID)})
 	case "update":
 		for _, id := range hits {
 			nid := id
 			if hasSetID {
 				nid = setID
 			}
-			evs = append(evs, xEvent{Op: "UPDATE", Table: table, Old: id, New: nid, Before: img(before, id), After: img(after, nid)})
+			evs = append(evs, cdcXEvent{Op: "UPDATE", Table: table, Old: id, New: nid, Before: img(before, id), After: img(after, nid)})
 		}
 	case "delete":
 		for _, id := range hits {
-			evs = append(evs, xEvent{Op: "DELETE", Table: table, Old: id, Before: img(before, id)})
+			evs = append(evs, cdcXEvent{Op: "DELETE", Table: table, Old: id, Before: img(before, id)})
 		}
 	}
 	return evs, nil
 }
 
-// xCommit is the set of row changes one commit made.
-type xCommit struct {
-	Events       []xEvent
+// cdcXCommit is the set of row changes one commit made.
+type cdcXCommit struct {
+	Events       []cdcXEvent
 	Stmt         int // position of the committing statement in the request (transaction: the last one)
 	FailedBefore int // statements of the same request that failed (and were rolled back) before this commit
 }
@@ -794,7 +794,7 @@ type xCommit struct {
 // run after a failure; with transaction: all or nothing, stop at the first
 // failure) and returns the row changes grouped per commit, in commit order.
 // Commits that changed no (matching) row produce no group.
-func (sh *cdcShadow) Apply(req *proto.Request) (groups []xCommit, stmtErrs int, err error) {
+func (sh *cdcShadow) Apply(req *proto.Request) (groups []cdcXCommit, stmtErrs int, err error) {
 	ctx := context.Background()
 	conn, err := sh.db.Conn(ctx)
 	if err != nil {
@@ -806,7 +806,7 @@ func (sh *cdcShadow) Apply(req *proto.Request) (groups []xCommit, stmtErrs int, 
 		if err != nil {
 			return nil, 0, err
 		}
-		var all []xEvent
+		var all []cdcXEvent
 		for _, st := range req.Statements {
 			if st.Sql == "" {
 				continue
@@ -823,7 +823,7 @@ func (sh *cdcShadow) Apply(req *proto.Request) (groups []xCommit, stmtErrs int, 
 			return nil, 0, err
 		}
 		if len(all) > 0 {
-			groups = append(groups, xCommit{Events: all, Stmt: len(req.Statements) - 1})
+			groups = append(groups, cdcXCommit{Events: all, Stmt: len(req.Statements) - 1})
 		}
 		return groups, 0, nil
 	}
@@ -837,7 +837,7 @@ func (sh *cdcShadow) Apply(req *proto.Request) (groups []xCommit, stmtErrs int, 
 			continue
 		}
 		if len(evs) > 0 {
-			groups = append(groups, xCommit{Events: evs, Stmt: i, FailedBefore: stmtErrs})
+			groups = append(groups, cdcXCommit{Events: evs, Stmt: i, FailedBefore: stmtErrs})
 		}
 	}
 	return groups, stmtErrs, nil
@@ -845,13 +845,13 @@ func (sh *cdcShadow) Apply(req *proto.Request) (groups []xCommit, stmtErrs int, 
 
 // ---------------------------------------------------------------- delivered payloads
 
-type dMsg struct {
+type cdcDMsg struct {
 	Index  uint64
-	Events []xEvent
+	Events []cdcXEvent
 }
 
-// decodeEnvelope parses the JSON a CDC endpoint receives into canonical events.
-func decodeEnvelope(b []byte) (node string, msgs []dMsg, err error) {
+// cdcDecodeEnvelope parses the JSON a CDC endpoint receives into canonical events.
+func cdcDecodeEnvelope(b []byte) (node string, msgs []cdcDMsg, err error) {
 	var env struct {
 		NodeID  string `json:"node_id"`
 		Payload []struct {
@@ -886,9 +886,9 @@ func decodeEnvelope(b []byte) (node string, msgs []dMsg, err error) {
 		return string(out), err
 	}
 	for _, p := range env.Payload {
-		m := dMsg{Index: p.Index}
+		m := cdcDMsg{Index: p.Index}
 		for _, e := range p.Events {
-			x := xEvent{Op: e.Op, Table: e.Table, Old: e.OldRowID, New: e.NewRowID, Err: e.Error}
+			x := cdcXEvent{Op: e.Op, Table: e.Table, Old: e.OldRowID, New: e.NewRowID, Err: e.Error}
 			if x.Before, err = canon(e.Before); err != nil {
 				return "", nil, err
 			}
@@ -902,9 +902,9 @@ func decodeEnvelope(b []byte) (node string, msgs []dMsg, err error) {
 	return env.NodeID, msgs, nil
 }
 
-// identSubsequence reports whether the identities of want appear, in order,
+// cdcIdentSubsequence reports whether the identities of want appear, in order,
 // within got.
-func identSubsequence(want, got []xEvent) bool {
+func cdcIdentSubsequence(want, got []cdcXEvent) bool {
 	j := 0
 	for _, g := range got {
 		if j < len(want) && want[j].ident() == g.ident() {
@@ -914,7 +914,7 @@ func identSubsequence(want, got []xEvent) bool {
 	return j == len(want)
 }
 
-func sameIdents(a, b []xEvent) bool {
+func cdcSameIdents(a, b []cdcXEvent) bool {
 	if len(a) != len(b) {
 		return false
 	}
@@ -926,7 +926,7 @@ func sameIdents(a, b []xEvent) bool {
 	return true
 }
 
-func sameEvents(a, b []xEvent) (bool, string) {
+func cdcSameEvents(a, b []cdcXEvent) (bool, string) {
 	if len(a) != len(b) {
 		return false, fmt.Sprintf("%d events vs %d", len(a), len(b))
 	}
